@@ -239,7 +239,9 @@ def _sess_case(draw, tier):
     civar = draw(st.sampled_from(["CI", "GITHUB_ACTIONS", "TRAVIS", "BUILD_ID", "TEAMCITY_VERSION"]))
     # the xfail marker may sit on the function, on the class or on the module
     return {"vals": vals, "mode": mode, "wrong": wrong, "civar": civar,
-            "xfail_at": draw(st.sampled_from(["func", "class", "module"]))}
+            "xfail_at": draw(st.sampled_from(["func", "class", "module"])),
+            # an xfail test that runs *before* the others in a session that is disabled as a whole
+            "xfail_first": draw(st.sampled_from([False, True]))}
 
 
 def check_sessions(case):
@@ -252,6 +254,8 @@ def check_sessions(case):
     else:
         at = case.get("xfail_at", "func") if mode == "xfail" else None
         ind = ""
+        if mode in ("disable", "ci", "xdist") and case.get("xfail_first"):
+            lines += ["@pytest.mark.xfail", "def test_00_expected_failure():", "    assert 1 == snapshot(2)", ""]
         if at == "module":
             lines += ["pytestmark = pytest.mark.xfail(reason='module')", ""]
         if at == "class":
@@ -295,6 +299,7 @@ def check_sessions(case):
                 if bad or not r.outcomes:
                     raise Violation("xfail-not-disabled", f"{r.outcomes}\n{src}\n{r.stdout[-2000:]}")
             else:
+                r.outcomes.pop("test_a::test_00_expected_failure", None)
                 bad = {k: v for k, v in r.outcomes.items() if v != "passed"}
                 if bad or not r.outcomes or r.returncode != 0:
                     raise Violation(f"not-identity:{mode}", f"rc={r.returncode} {r.outcomes}\n{src}\n{r.stdout[-2000:]}")
